@@ -10,6 +10,7 @@ package simrt
 import (
 	"fmt"
 	"hash/fnv"
+	"os"
 	"runtime/debug"
 	"sort"
 	"strings"
@@ -83,7 +84,8 @@ type Sched struct {
 	Switches    int64
 	Decisions   int64
 	LockWaits   int64
-	LockHandoff bool // FIFO hand-off of keyed locks (see AcquireK)
+	SimLimitMs  int64 // simulated-time cap of a run (0: none)
+	LockHandoff bool  // FIFO hand-off of keyed locks (see AcquireK)
 	lockQ       map[any][]*Task
 	Spawned     int64
 	BudgetHit   bool
@@ -109,7 +111,7 @@ type SiteInfo struct {
 var S *Sched
 
 func New(strategy Strategy, dec *Stream, maporder *Stream) *Sched {
-	return &Sched{strategy: strategy, dec: dec, maporder: maporder, StepLimit: 12_000_000, WallLimitMs: 40_000, pairs: map[uint64]struct{}{}}
+	return &Sched{strategy: strategy, dec: dec, maporder: maporder, StepLimit: 12_000_000, WallLimitMs: 40_000, SimLimitMs: 900_000, pairs: map[uint64]struct{}{}}
 }
 
 func (s *Sched) removeParked(t *Task) {
@@ -209,6 +211,31 @@ func realNow() int64 {
 	return int64(tv.Sec)*1000 + int64(tv.Usec)/1000
 }
 
+func (s *Sched) watchdogTrace(t *Task, site int) {
+	if os.Getenv("VERIF_WATCHDOG_TRACE") == "" {
+		return
+	}
+	fn := ""
+	if site > 0 && site < len(s.Sites) {
+		fn = s.Sites[site].Fn + " " + s.Sites[site].Pos
+	}
+	name := ""
+	if t != nil {
+		name = t.Name
+	}
+	fmt.Fprintf(os.Stderr, "WATCHDOG: steps=%d now=%dms current task %s at %s; tasks:", s.Steps, s.NowMs(), name, fn)
+	for _, x := range s.tasks {
+		if x.state == stParked || x.state == stLockWait {
+			f2 := ""
+			if x.site > 0 && x.site < len(s.Sites) {
+				f2 = s.Sites[x.site].Fn
+			}
+			fmt.Fprintf(os.Stderr, " [%s st=%d %s]", x.Name, x.state, f2)
+		}
+	}
+	fmt.Fprintln(os.Stderr)
+}
+
 // wallExceeded implements the real-time watchdog of a run (a livelocked world must not hold a
 // check up for minutes). It ends the run as "budget hit" (inconclusive), never as a verdict.
 func (s *Sched) wallExceeded() bool {
@@ -222,6 +249,9 @@ func (s *Sched) wallExceeded() bool {
 	if s.realStart == 0 {
 		s.realStart = realNow()
 		return false
+	}
+	if s.SimLimitMs > 0 && s.NowMs() > s.SimLimitMs {
+		return true // the root task never ended the run (it hangs in the code under test): no horizon, no end
 	}
 	return realNow()-s.realStart > s.WallLimitMs
 }
@@ -380,6 +410,7 @@ func yieldSlow(s *Sched, t *Task, site int) {
 		panic(stopSignal{})
 	}
 	if s.Steps > s.StepLimit || s.wallExceeded() {
+		s.watchdogTrace(t, site)
 		s.BudgetHit = true
 		s.stopping = true
 		s.mu.Unlock()
@@ -440,6 +471,7 @@ func Block(site int) *Task {
 	}
 	s.checkClock("block")
 	if s.wallExceeded() {
+		s.watchdogTrace(t, site)
 		s.BudgetHit = true
 		s.stopping = true
 		s.mu.Unlock()
@@ -593,19 +625,12 @@ func ReleaseK(site int, key any, unlock func()) {
 	}
 	unlock()
 	s.mu.Lock()
-	// wake the head of this lock's queue, and every waiter of other locks (their holders may have
-	// released through the plain path)
-	var head *Task
+	// wake the head of this lock's queue only: every lock is keyed in this mode, so the waiters of
+	// other locks are woken by the release of their own lock
 	if q := s.lockQ[key]; len(q) > 0 {
-		head = q[0]
-	}
-	for _, t := range s.tasks {
-		if t.state != stLockWait {
-			continue
-		}
-		if t == head || !s.queuedBehind(key, t) {
-			t.state = stParked
-			s.parked = append(s.parked, t)
+		if head := q[0]; head.state == stLockWait {
+			head.state = stParked
+			s.parked = append(s.parked, head)
 		}
 	}
 	s.mu.Unlock()
